@@ -34,7 +34,10 @@ ASSUMPTIONS = [
 
 MECHS = {'fallback': None, 'fallback_timed': None,
          # a second, idle manager runs in a thread of its own next to the one that is fired at (nothing may be shared between them)
-         'fallback_two': None, 'select': 'Select', 'poll': 'Poll', 'epoll': 'EPoll',
+         'fallback_two': None,
+         # Select with a healthy descriptor registered and another one that was closed behind the poller's back: the first
+         # select() fails, the poller cleans its lists up - and must still be woken by a fire from another thread afterwards
+         'select_fault': 'Select', 'select': 'Select', 'poll': 'Poll', 'epoll': 'EPoll',
          # "ctrl" variants: a near timer bounds every idle wait (1/8 s) and that wait may expire (environment choice); scheduling
          # points are restricted to the wake-up protocol itself (control pipe, resume, time-left budget), which makes three
          # deviations affordable
@@ -101,6 +104,16 @@ def execute(case, prefix):
     if MECHS[case.mech]:
         poller = getattr(pollers_mod, MECHS[case.mech])().register(root)
 
+    extra_socks = []
+    if case.mech == 'select_fault':
+        import socket as _socket
+        a1, a2 = _socket.socketpair()
+        b1, b2 = _socket.socketpair()
+        extra_socks += [a2, b1, b2]
+        poller.addReader(root, a1)
+        poller.addReader(root, b1)
+        a1.close()
+
     def on_ev(self, event, *a):
         log.append(('disp', event.tid, event.seq))
 
@@ -165,6 +178,11 @@ def execute(case, prefix):
         if other is not None:
             other.stop()
     ex.run(on_release)
+    for x in extra_socks:
+        try:
+            x.close()
+        except OSError:
+            pass
     if poller is not None:
         for fd in (getattr(poller, '_ctrl_recv', None), getattr(poller, '_ctrl_send', None)):
             try:
@@ -276,9 +294,9 @@ def compress(choices):
 
 def plan(tier):
     if tier == 'quick':
-        return [('fallback_two', 1, 1, 1), ('fallback', 1, 2, 2), ('fallback_timed', 1, 2, 1), ('select', 1, 2, 1), ('poll', 1, 2, 1), ('epoll', 1, 2, 1), ('fallback', 2, 1, 1),
+        return [('fallback_two', 1, 1, 1), ('select_fault', 1, 2, 1), ('fallback', 1, 2, 2), ('fallback_timed', 1, 2, 1), ('select', 1, 2, 1), ('poll', 1, 2, 1), ('epoll', 1, 2, 1), ('fallback', 2, 1, 1),
                 ('epoll_ctrl', 3, 1, 3)]
-    return [('fallback_two', 1, 2, 2), ('fallback', 1, 2, 3), ('fallback_timed', 1, 2, 2), ('select', 1, 2, 2), ('poll', 1, 2, 2), ('epoll', 1, 2, 2), ('fallback', 2, 2, 2),
+    return [('fallback_two', 1, 2, 2), ('select_fault', 1, 2, 2), ('fallback', 1, 2, 3), ('fallback_timed', 1, 2, 2), ('select', 1, 2, 2), ('poll', 1, 2, 2), ('epoll', 1, 2, 2), ('fallback', 2, 2, 2),
             ('epoll', 2, 1, 2), ('select_ctrl', 3, 1, 3), ('poll_ctrl', 3, 1, 3), ('epoll_ctrl', 3, 1, 3), ('epoll_ctrl', 1, 3, 3)]
 
 
